@@ -4,6 +4,7 @@ CONSTANTS
   MaxSegs = 2
   MaxOps = 3
   Ids = {"s1"}
+  TakeNs <- TakeAll
   Fix <- FixNone
 INVARIANTS TypeOK
 PROPERTIES StepsOK MonotoneOK
